@@ -175,6 +175,30 @@ def _dense_argvals(grid):
     return A.DenseArgvals({f"input_dim_{i}": _arr(g) for i, g in enumerate(grid)})
 
 
+LAYOUTS = ["F", "T", "neg", "strided", "negfirst"]
+
+
+def _layout(arr, how):
+    """The same logical array in another memory layout: Fortran order, a transposed view, negative strides, a
+    non-contiguous slice of a larger buffer."""
+    arr = np.asarray(arr)
+    if not how or arr.ndim == 0:
+        return arr
+    if how == "F":
+        return np.asfortranarray(arr)
+    if how == "T":
+        return np.ascontiguousarray(arr.T).T
+    if how == "neg":
+        return np.ascontiguousarray(arr[..., ::-1])[..., ::-1]
+    if how == "negfirst":
+        return np.ascontiguousarray(arr[::-1])[::-1]
+    if how == "strided":
+        big = np.full(arr.shape[:-1] + (2 * arr.shape[-1],), -777.0, dtype=arr.dtype)
+        big[..., ::2] = arr
+        return big[..., ::2]
+    raise ValueError(how)
+
+
 def build(d):
     """A real FDApy object (or a non-data operand) from its JSON description."""
     A, V, FD = _fd()
@@ -183,13 +207,14 @@ def build(d):
         vals = np.array([[_num(x) for x in r] for r in d["rows"]], dtype=float).reshape((len(d["rows"]),) + pts)
         if d.get("dtype"):
             vals = vals.astype(np.dtype(d["dtype"]))
+        vals = _layout(vals, d.get("layout"))
         return FD.DenseFunctionalData(_dense_argvals(d["grid"]), V.DenseValues(vals))
     if d["k"] == "I":
         grids = {l: g for l, g, _ in d["obs"]}
         aord = d.get("aord") or [l for l, _, _ in d["obs"]]
         arg = A.IrregularArgvals({l: _dense_argvals(grids[l]) for l in aord})
         dt = np.dtype(d["dtype"]) if d.get("dtype") else np.dtype(float)
-        val = V.IrregularValues({l: _arr(v).reshape(tuple(len(t) for t in g)).astype(dt) for l, g, v in d["obs"]})
+        val = V.IrregularValues({l: _layout(_arr(v).reshape(tuple(len(t) for t in g)).astype(dt), d.get("layout")) for l, g, v in d["obs"]})
         return FD.IrregularFunctionalData(arg, val)
     w = d["what"]
     if w == "basis":
@@ -982,6 +1007,29 @@ def zoo_cases():
                                reflected=reflected, zoo=True)
 
 
+def layout_cases():
+    """In every run: operand arrays in every memory layout (Fortran order, transposed view, negative strides, a
+    non-contiguous slice), dense 2-D / 1-D values and every irregular observation, all operators, scalar and functional
+    operands in both orders: the result is pointwise whatever the layout."""
+    g2 = [[0, 1], [0, 1, 2]]
+    g1 = [[0, 1, 2, 3]]
+    d2 = D(g2, [[1, 2, 3, 4, 5, 6], [7, 8, 9, 10, 11, 12]])
+    d1 = D(g1, [[1, 2, 3, 4], [5, 6, 7, 8]])
+    i2 = I([(0, g2, [1, 2, 3, 4, 5, 6]), (1, [[0, 1, 2], [0, 1]], [7, 8, 9, 10, 11, 12])])
+    i1 = I([(0, [[0, 1, 2]], [1, 2, 3]), (1, g1, [4, 5, 6, 7])])
+    for base in (d2, d1, i2, i1):
+        other = dict(base)
+        other = revalue(Rng("layout-other"), base, zeros=False)
+        for lay in LAYOUTS:
+            a = dict(base, layout=lay)
+            for op in OPS:
+                yield dict(kind="sc", op=op, a=a, skind="float", c=q(Fraction(3, 2)), reflected=False, layout=lay)
+                yield dict(kind="bin", op=op, a=a, b=other, respect="ok", layout=lay)
+                yield dict(kind="bin", op=op, a=other, b=dict(other, layout=lay) if op in ("add", "mul") else a, respect="ok", layout=lay)
+            yield dict(kind="sc", op="mul", a=a, skind="int", c=q(3), reflected=True, layout=lay)
+            yield dict(kind="eq", a=a, b=base, tag="layout:" + lay)
+
+
 DTYPES = ["int64", "int32", "float32", "float64", "bool"]
 
 
@@ -1293,6 +1341,7 @@ def gen_cases(rng: Rng, tier):
     yield from share_cases()
     yield from zoo_cases()
     yield from dtype_cases()
+    yield from layout_cases()
     yield from bin_cases(rng, 130 * k)
     yield from derived_cases(rng, 45 * k)
     yield from decimal_cases(rng, 30 * k)
